@@ -7,8 +7,9 @@ from harness.agree import agrees, klass
 CELLS = ['Sheet1!A1', 'Sheet1!B1', 'Sheet1!C1', 'Sheet1!D1']
 
 
-def evaluate_case(text, asg):
-    """-> (abstract value or {'t': 'pyexc'}, spy log)"""
+def evaluate_case(text, asg, covered=False):
+    """-> (abstract value or {'t': 'pyexc'}, spy log).  covered: another formula of the model mentions the range A1:E1, so
+    that the blank cells of the assignment exist in the model (as empty cells) instead of being absent"""
     L = xl.lib()
     cells = {}
     for a, v in zip(CELLS, asg):
@@ -22,7 +23,10 @@ def evaluate_case(text, asg):
 
     def fn():
         try:
-            model, ev = xl.build_model(cells, {'Sheet1!Z1': text, 'Sheet1!Q1': '=Q1+1'})
+            forms = {'Sheet1!Z1': text, 'Sheet1!Q1': '=Q1+1'}
+            if covered:
+                forms['Sheet1!Y1'] = '=COUNTA(A1:E1)'
+            model, ev = xl.build_model(cells, forms)
             ev.namespace['SPY'] = SPY
             return {'abs': xl.to_abs(ev.evaluate('Sheet1!Z1'))}
         except BaseException as e:      # noqa
@@ -105,18 +109,44 @@ def worker(blocks):
         out['n'] += 1
         out['kinds'][case['kind']] = out['kinds'].get(case['kind'], 0) + 1
         asg = ASSIGN[case['asg'] - 1]
-        obs, log = evaluate_case(text, asg)
-        ok = admissible(obs, log, outs)
-        if ok is None:
-            out['open'] += 1
-            continue
-        if len(out['samples']) < 2 and log:
-            out['samples'].append({'formula': text, 'cells': dict(zip('ABCD', asg)), 'admissible': outs, 'observed': obs, 'spy_log': log})
-        if not ok:
-            val_ok = any((o['v']['t'] == 'pyexc') == (obs['t'] == 'pyexc') and (o['v']['t'] == 'pyexc' or agrees(obs, o['v']) is True) for o in outs)
-            out['dis'].append({'case': {'formula': text, 'cells': asg, 'kind': case['kind']}, 'exp': outs, 'obs': {'value': obs, 'spy_log': log},
-                               'features': {'kind': case['kind'], 'clause': 'spy-log' if val_ok else 'value', 'obs': klass(obs) if obs['t'] != 'pyexc' else 'pyexc:' + obs.get('cls', ''),
-                                            'fn': text[1:text.index('(')]}})
+        judge(out, text, asg, case['kind'], outs, False)
+        if any(v['t'] == 'blank' for v in asg) or 'E1' in text:
+            judge(out, text, asg, case['kind'], outs, True)
+    return out
+
+
+def judge(out, text, asg, kind, outs, covered, extra=None):
+    obs, log = evaluate_case(text, asg, covered)
+    ok = admissible(obs, log, outs)
+    if ok is None:
+        out['open'] += 1
+        return
+    if len(out.get('samples', ())) < 2 and log and 'samples' in out:
+        out['samples'].append({'formula': text, 'cells': dict(zip('ABCD', asg)), 'admissible': outs, 'observed': obs, 'spy_log': log})
+    if not ok:
+        val_ok = any((o['v']['t'] == 'pyexc') == (obs['t'] == 'pyexc') and (o['v']['t'] == 'pyexc' or agrees(obs, o['v']) is True) for o in outs)
+        c = {'formula': text, 'cells': asg, 'kind': kind}
+        if covered:
+            c['covered'] = True
+        c.update(extra or {})
+        out['dis'].append({'case': c, 'exp': outs, 'obs': {'value': obs, 'spy_log': log},
+                           'features': {'kind': kind, 'clause': 'spy-log' if val_ok else 'value', 'obs': klass(obs) if obs['t'] != 'pyexc' else 'pyexc:' + obs.get('cls', ''),
+                                        'fn': text[1:text.index('(')], 'covered': covered, **({'order': extra['order']} if extra else {})}})
+
+
+def order_worker(item):
+    """one evaluation order of many cases in ONE fresh process: state that a call leaves behind in the process (a memo keyed
+    by function name, by argument count, ...) shows as a later case going wrong"""
+    name, cases = item
+    out = {'n': 0, 'open': 0, 'dis': []}
+    for text, asg, kind, outs in cases:
+        out['n'] += 1
+        judge(out, text, asg, kind, outs, False, extra={'order': name})
+        if out['dis'] and 'evaluated_before' not in out['dis'][-1]['case']:
+            out['dis'][-1]['case']['evaluated_before'] = out['n'] - 1
+            out['dis'][-1]['case']['first_in_process'] = [[t, a] for t, a, _, _ in cases[:12]]
+            if len(out['dis']) >= 5:
+                break
     return out
 
 
@@ -160,6 +190,27 @@ def run(run):
             run.disagree('logic', d['case'], d['exp'], d['obs'], d['features'], clause='reused-model')
     run.evaluations += nre
     run.notes['reused_model_evaluations'] = nre
+    # evaluation orders within one process: fewest arguments first, most arguments first, and two seeded shuffles
+    allc = []
+    for b in blocks:
+        st = pool.parse_block(b)
+        allc.append((''.join(map(chr, st['case']['text'])), ASSIGN[st['case']['asg'] - 1], st['case']['kind'], st['res']))
+    rank = {'not': 0, 'junc1': 1, 'if2': 2, 'junc2': 3, 'if3': 4, 'if-poison': 5, 'junc3': 6, 'nested': 7}
+    rng = random.Random(run.seed * 31 + 7)
+    sample = rng.sample(allc, min(len(allc), 1500 if run.tier == 'quick' else 6000))
+    asc = sorted(sample, key=lambda c: rank.get(c[2], 9))
+    orders = [('fewest-arguments-first', asc), ('most-arguments-first', asc[::-1])]
+    for k in range(2):
+        sh = list(sample)
+        rng.shuffle(sh)
+        orders.append((f'shuffle-{k}', sh))
+    nord = 0
+    for res in pool.pmap_fresh(order_worker, orders):
+        nord += res['n']
+        for d in res['dis']:
+            run.disagree('logic', d['case'], d['exp'], d['obs'], d['features'], clause='order-in-process')
+    run.evaluations += nord
+    run.notes['ordered_process_evaluations'] = nord
     run.rule = ('18 conditions (constants, numbers, blank cell, references under 4 truth assignments, comparisons, nested AND/OR/NOT/IF, '
                 'error values) x 6 branch expressions (constants, references, SPY, nested IF with spies) in both branches and in the '
                 'two-argument form; poisoned branches (unknown function, circular reference, 1/0) on either side; AND/OR of arity 1-3 '
@@ -172,7 +223,9 @@ def replay(path):
     import json
     d = json.load(open(path))
     c = d['case']
-    obs, log = evaluate_case(c['formula'], c['cells'])
+    for t, a in c.get('first_in_process', []):       # the cases this process evaluated first (order-in-process)
+        evaluate_case(t, a)
+    obs, log = evaluate_case(c['formula'], c['cells'], bool(c.get('covered')))
     print('formula', c['formula'], 'cells', c['cells'], '\nadmissible', d['expected'], '\nobserved', obs, log)
     if admissible(obs, log, d['expected']) is False:
         print(f"VIOLATION property=C10 replay={path}")
